@@ -23,7 +23,7 @@
        AMOUNT BALANCE SENDER SOURCE SELF_ADDRESS NOW LEVEL CHAIN_ID reading an [env] record
      stage 3 (MODELS ONLY so far, outside every theorem: typecheck_nr rejects them): sets and maps (EMPTY_SET, EMPTY_MAP,
        MEM, GET, UPDATE, GET_AND_UPDATE, SIZE/ITER on sets and maps, MAP on maps, set/map literals)
-     stage 3 (models only): LAMBDA, EXEC, APPLY (closures as { PUSH ty literal ; PAIR ; body })
+     stage 3: LAMBDA, EXEC, APPLY (closures as { PUSH ty literal ; PAIR ; body }); no LAMBDA_REC, no PUSH of lambda literals
      later stages:
        environment instructions, PACK/UNPACK, hashes. *)
 From Coq Require Import List ZArith NArith Bool Arith.
@@ -112,7 +112,7 @@ Inductive instr : Type :=
 | I_SLICE
 | I_CONCAT
 | I_FAILWITH
-| I_LAMBDA (a b : ty) (body : instr) | I_EXEC | I_APPLY.   (* outside the proved fragment *)
+| I_LAMBDA (a b : ty) (body : instr) | I_EXEC | I_APPLY.
 
 (* The fragment for which the simulation / preservation theorems are PROVED. At stage 1 it is the whole AST;
    when the AST grows ahead of the proofs the new constructors are excluded here. *)
@@ -120,7 +120,7 @@ Fixpoint in_fragmentb (i : instr) : bool :=
   match i with
   | I_SEQ a b | I_IF a b | I_IF_NONE a b | I_IF_LEFT a b | I_IF_CONS a b => in_fragmentb a && in_fragmentb b
   | I_DIP _ c | I_LOOP c | I_LOOP_LEFT c | I_ITER c | I_MAP c => in_fragmentb c
-  | I_LAMBDA _ _ _ | I_EXEC | I_APPLY => false
+  | I_LAMBDA _ _ c => in_fragmentb c
   | _ => true
   end.
 Definition in_fragment (i : instr) : Prop := in_fragmentb i = true.
@@ -434,34 +434,6 @@ Fixpoint py_strict_sorted (l : list pval) : bool :=
               end
   end.
 Definition py_key (entry : pval) : pval := match entry with PPair k _ => k | _ => entry end.
-
-(* "v is a well-formed pytezos value of type t": the class is t at every level, naturals are >= 0 *)
-Fixpoint pv_typedb (v : pval) (t : ty) {struct v} : bool :=
-  match v, t with
-  | PInt _, TInt => true
-  | PNat z, TNat => (0 <=? z)%Z
-  | PMutez z, TMutez => (0 <=? z)%Z && (z <? mutez_bound)%Z
-  | PTimestamp _, TTimestamp => true
-  | PAddress _, TAddress => true
-  | PChainId _, TChainId => true
-  | PStr _, TString => true
-  | PBytes _, TBytes => true
-  | PBool _, TBool => true
-  | PUnit, TUnit => true
-  | PPair x y, TPair a b => pv_typedb x a && pv_typedb y b
-  | PNone t', TOption a => ty_eqb t' a
-  | PSome x, TOption a => pv_typedb x a
-  | PLeft x tr, TOr a b => pv_typedb x a && ty_eqb tr b
-  | PRight tl y, TOr a b => ty_eqb tl a && pv_typedb y b
-  | PList t' l, TList a => ty_eqb t' a && forallb (fun x => pv_typedb x a) l
-  | PSet t' l, TSet a => ty_eqb t' a && forallb (fun x => pv_typedb x a) l && py_strict_sorted l
-  | PMap kt vt l, TMap a b =>
-      ty_eqb kt a && ty_eqb vt b
-      && forallb (fun x => match x with PPair k v => pv_typedb k a && pv_typedb v b | _ => false end) l
-      && py_strict_sorted (map py_key l)
-  | PLam a b _, TLambda a' b' => ty_eqb a a' && ty_eqb b b'   (* the body is not re-checked (lambdas are outside the proved fragment) *)
-  | _, _ => false
-  end.
 
 (* forgetting the classes: what both semantics are compared on *)
 Fixpoint erase (v : pval) : value :=
